@@ -465,3 +465,43 @@ def resolve_reference_aliases(prog):
                 if changed:
                     break
     return n
+
+
+# ----------------------------------------------------------------------------- canonical parameter names
+def canonical_param_names(prog, table):
+    """Alpha-rename the parameters of every function whose signature is in `table` (signature -> parameter names of the
+    pinned tree) back to those names, so that rules may refer to a parameter by the name it has in the library's
+    documentation.  Pure alpha-conversion: skipped for a function when the canonical name is already used by another
+    declaration in it.  Returns the number of parameters renamed."""
+    n = 0
+    for f in prog.all_functions(include_patterns=True):
+        names = table.get(f.sig)
+        if not names or len(names) != len(f.params) or f.body is None:
+            continue
+        ren = {}
+        for p, want in zip(f.params, names):
+            if p.get('name') and want and p['name'] != want:
+                ren[p['id']] = (p['name'], want)
+        if not ren:
+            continue
+        used = set()
+        for x in _nodes(f.body):
+            if x.get('name') and x.get('id') and x.get('id') not in ren:
+                used.add(x['name'])
+        for p in f.params:
+            if p['id'] not in ren:
+                used.add(p['name'])
+        if any(want in used for _, want in ren.values()):
+            continue
+        for p in f.params:
+            if p['id'] in ren:
+                p['name'] = ren[p['id']][1]
+                n += 1
+        for x in _nodes(f.body):
+            if x.get('id') in ren and 'name' in x:
+                x['name'] = ren[x['id']][1]
+        for i in f.inits:
+            for x in _nodes(i.get('init')):
+                if x.get('id') in ren and 'name' in x:
+                    x['name'] = ren[x['id']][1]
+    return n
